@@ -954,19 +954,8 @@ pub fn judge(s: &Scenario, r: &RunResult) -> (Vec<Violation>, Vec<&'static str>)
             if !missing.is_empty() { "reference-file-dropped" } else { "unexpected-reference-file" },
             format!("expected reference files {:?}; missing {:?}, unexpected {:?}", exp.refs, missing, extra),
         ));
-    } else {
-        // explicitly listed reference files keep their relative order
-        let got_explicit: Vec<&String> = got_refs.iter().filter(|m| exp.refs_explicit.contains(m)).collect();
-        let want_explicit: Vec<&String> = exp.refs_explicit.iter().collect();
-        if got_explicit != want_explicit && !exp.loops {
-            // a file that is both listed and found below a listed directory takes the position of whichever
-            // comes first; only compare when no explicit file also lies below a listed directory
-            let ambiguous = exp.duplicates.keys().any(|d| exp.refs_explicit.contains(d));
-            if !ambiguous {
-                vio.push(v("reference-order-differs", format!("explicitly listed reference files should appear as {:?}, got {:?}", want_explicit, got_explicit)));
-            }
-        }
     }
+    // (The order among reference files is not judged: the statement fixes the order of the sources only.)
     // DuplicateFile warnings
     let mut got_dups: BTreeMap<String, usize> = BTreeMap::new();
     for d in diags.iter().filter(|d| d.code == "DuplicateFile") {
